@@ -3,19 +3,22 @@
 // Contracts for the deductive verification in /verif (comment-only; compiled code is unaffected).
 package accountmanager
 
+// every collaborator the constructor checks for is present (object invariant: proved for the value the constructor returns)
+//@ spec wiredAMHandler(h *Handler) bool = h != nil && h.accountManager != nil && h.process != nil
+
 // C20: a response or an error for every request; the state mirrors the service's verdict.
 //@ func (*Handler).Lock
-//@ requires h != nil
+//@ requires wiredAMHandler(h)
 //@ requires [unlocked] !prelocked && (forall k [48]byte :: !held[k])
 //@ modifies checkedset, deniedset, tokroot, db, held, prelocked
 //@ ensures [answer] (req == nil ==> result0 == nil && result1 != nil) && (req != nil ==> result0 != nil && result1 == nil)
 //@ func (*Handler).Unlock
-//@ requires h != nil
+//@ requires wiredAMHandler(h)
 //@ requires [unlocked] !prelocked && (forall k [48]byte :: !held[k])
 //@ modifies checkedset, deniedset, tokroot, db, held, prelocked
 //@ ensures [answer] (req == nil ==> result0 == nil && result1 != nil) && (req != nil ==> result0 != nil && result1 == nil)
 //@ func (*Handler).Generate
-//@ requires h != nil
+//@ requires wiredAMHandler(h)
 //@ modifies procstate
 //@ ensures [answer] (req == nil ==> result0 == nil && result1 != nil) && (req != nil ==> result0 != nil && result1 == nil)
 //@ ensures [failed] req != nil && result0.State != pb.ResponseState_SUCCEEDED ==> len(result0.PublicKey) == 0 && len(result0.Participants) == 0
